@@ -46,6 +46,7 @@ logging.getLogger("paramiko").addHandler(logging.NullHandler())
 logging.getLogger("paramiko").propagate = False
 
 PARAMIKO_ROOT = os.path.dirname(os.path.abspath(paramiko.__file__)) + os.sep
+VF_ROOT = os.path.dirname(os.path.abspath(__file__)) + os.sep
 RELAY = os.path.join(os.path.dirname(os.path.abspath(__file__)), "c13_relay.py")
 
 MSG_DISCONNECT, MSG_IGNORE, MSG_SERVICE_REQUEST = 1, 2, 5
@@ -704,15 +705,20 @@ class Tracer:
         self.on_hit = on_hit
         self.n = 0
         self.hit = False
+        self.off = False  # set once the measurement / preemption is over: stop tracing the caller
         self.where = None
         self.times = []
 
     def glob(self, frame, event, arg):
+        if self.off:
+            return None
         if frame.f_code.co_filename.startswith(PARAMIKO_ROOT):
             return self.loc
         return None
 
     def loc(self, frame, event, arg):
+        if self.off:
+            return None
         if event == "line":
             if len(self.times) < 5000:
                 self.times.append(time.monotonic())
@@ -877,7 +883,7 @@ def observe(w, callers, window, deadline, extra_threads=()):
         )
         everyone = list(cstacks) + [vstack, pstack] + list(estacks)
         soft = tuple(None if s is None else proj(s) for s in everyone)
-        full = tuple(None if s is None else tuple(q for _, q, _ in s) for s in everyone)
+        full = tuple(None if s is None else tuple(q for fn, q, _ in s if not fn.startswith(VF_ROOT)) for s in everyone)
         last = dict(cstacks=cstacks, vstack=vstack, pstack=pstack, estacks=estacks, active=active, drained=drained)
         if all(c.done for c in callers) and not active and all(s is None for s in estacks):
             return "ok", dict(samples=run_samples, span=0.0), last
@@ -1057,6 +1063,7 @@ def run_case(a):
             # lines executed up to the moment the call was seen parked (a poll
             # loop adds a few lines per 0.1 s: those are preemption points too)
             res["n_lines"] = tr.n
+            tr.off = True
         res["parked"] = st
         if st == "blocked" and a.get("pre") not in (None, "none"):
             apply_pre(w)
@@ -1105,6 +1112,7 @@ def run_case(a):
         res["inactive_before_resume"] = wait_inactive(2.0)
         resume_evt.set()
         res["n_lines_seen"] = tr.n
+        tr.off = True
     else:  # after
         apply_pre(w)
         w.wait_quiet(10)
